@@ -44,3 +44,4 @@ import SluVerif.Proofs.InitCursor
 #print axioms Slu.parallelInit_sizes
 #print axioms Slu.initLoop_fb
 #print axioms Slu.initLoop_state
+#print axioms Slu.cursors_increasing
